@@ -4,5 +4,7 @@ export GOFLAGS=-mod=mod GOPROXY=off GOSUMDB=off GOTOOLCHAIN=local
 cd /verif || exit 2
 mkdir -p bin evidence replays
 go build -tags verif -o bin/check.setup ./cmd/check || exit 2
+# the hb variant (C05, C10) links the system libharfbuzz through cgo: fail loudly here if it cannot be built
+go build -tags "verif hb" -o bin/check.setup ./cmd/check || { echo "cannot build the libharfbuzz variant (cgo, -l:libharfbuzz.so.0)"; exit 2; }
 rm -f bin/check.setup
 echo "setup ok"
